@@ -214,6 +214,460 @@ AREAS = [
                    'Zone::GetLocalZone()': ('Some l', 'zptr'), 'this': ('Some z', 'zptr')},
              fns={'zptr->GetGlobal': ('xz_global t', ['zptr'], 'bool'), 'zptr->IsChildOf': ('xz_is_child_of t', ['zptr', 'zptr'], 'bool')}),
     ]),
+    # ---------------------------------------------------------------------------------------- round 2: C02 send / suppress / stash / fire
+    dict(area='supp', requires=['Icv.Facts.Facts_enums', 'Icv.Src.XlPrelude', 'Icv.Facts.Facts_fn_ck'], items=[
+        dict(glue='notify_events', props=['C02', 'C06'], deps=[], doc='a call of Checkable::OnNotificationsRequested(this, type, ...): the requested notification type, in program order',
+             text='Inductive xn_ev := XnRequest (type : Z).\n'),
+        # the computation of send_notification / suppress_notification (checkable-check.cpp, "bool in_downtime = ..." up to "StateType new_stateType")
+        dict(name='pcr_send_suppress', func='Checkable::ProcessCheckResult', file='lib/icinga/checkable-check.cpp', props=['C02'],
+             region=(r'bool\s+in_downtime\s*=', r'StateType\s+new_stateType\s*='), outputs=['in_downtime', 'send_notification', 'suppress_notification'],
+             inputs=[('is_host', 'bool'), ('notification_reachable', 'bool'), ('in_dt', 'bool'), ('acknowledged', 'bool'), ('hard_change', 'bool'),
+                     ('is_volatile', 'bool'), ('old_state_type', 'Z'), ('state_type', 'Z'), ('old_state', 'Z'), ('new_state', 'Z')],
+             ret='void', rcoq='bool * bool * bool', dummy='(false, false, false)',
+             locals={'notification_reachable': Bb('notification_reachable'), 'hardChange': Bb('hard_change'), 'is_volatile': Bb('is_volatile'),
+                     'old_stateType': Zb('old_state_type'), 'old_state': Zb('old_state'), 'new_state': Zb('new_state')},
+             bind={'IsInDowntime()': Bb('in_dt'), 'IsAcknowledged()': Bb('acknowledged'), 'GetStateType()': Zb('state_type')},
+             fns={'IsStateOK': ('src_checkable_is_state_ok is_host', ['Z'], 'bool')}),
+        # flapping start/end + immediate-vs-stash + the stash block ("int suppressed_types = 0;" up to the reachability update);
+        # suppressed_notifications and state_before_suppression are STATE variables (read, then written under the lock)
+        dict(name='pcr_notify_stash', func='Checkable::ProcessCheckResult', file='lib/icinga/checkable-check.cpp', props=['C02'],
+             region=(r'int\s+suppressed_types\s*=\s*0\s*;', r'if\s*\(\s*\(\s*stateChange\s*\|\|\s*hardChange\s*\)'), outputs=[],
+             inputs=[('was_flapping', 'bool'), ('is_flapping', 'bool'), ('paused', 'bool'), ('in_downtime', 'bool'), ('send_notification', 'bool'),
+                     ('suppress_notification', 'bool'), ('recovery', 'bool'), ('old_state_type', 'Z'), ('old_state', 'Z'),
+                     ('supp0', 'Z'), ('sbs0', 'Z')],
+             ret='void', dummy='(0, 0, nil)',
+             locals={'was_flapping': Bb('was_flapping'), 'is_flapping': Bb('is_flapping'), 'in_downtime': Bb('in_downtime'),
+                     'send_notification': Bb('send_notification'), 'suppress_notification': Bb('suppress_notification'), 'recovery': Bb('recovery'),
+                     'old_stateType': Zb('old_state_type'), 'old_state': Zb('old_state')},
+             state=[('$supp', 'supp0', 'Z'), ('$sbs', 'sbs0', 'Z'), ('$events', '(@nil xn_ev)', 'list xn_ev')],
+             getters={'GetSuppressedNotifications()': '$supp'}, setters={'SetSuppressedNotifications': '$supp', 'SetStateBeforeSuppression': '$sbs'},
+             emits={'OnNotificationsRequested': ('$events', 'XnRequest {1}', [None, 'Z', None, None, None, None])},
+             skip=[r'^Log\(', r'^ObjectLock ', r'^NotifyFlapping\(origin\)$'],
+             bind={'IsPaused()': Bb('paused')}),
+        # Checkable::FireSuppressedNotifications (checkable-notification.cpp); the LazyInit lambda (did a parent recover recently?) is an input
+        dict(name='checkable_fire_suppressed_notifications', func='Checkable::FireSuppressedNotifications', file=CK_FILE, props=['C02'],
+             inputs=[('active', 'bool'), ('paused', 'bool'), ('enable_notifications', 'bool'), ('supp0', 'Z'), ('is_host', 'bool'), ('has_cr', 'bool'),
+                     ('cr_state', 'Z'), ('state_type', 'Z'), ('sbs', 'Z'), ('reachable', 'bool'), ('in_downtime', 'bool'), ('acknowledged', 'bool'),
+                     ('flapping', 'bool'), ('likely_soon', 'bool'), ('parent_recent', 'bool')],
+             ret='void', dummy='(0, nil)',
+             state=[('$supp', 'supp0', 'Z'), ('$events', '(@nil xn_ev)', 'list xn_ev')],
+             getters={'GetSuppressedNotifications()': '$supp'}, setters={'SetSuppressedNotifications': '$supp'},
+             emits={'Checkable::OnNotificationsRequested': ('$events', 'XnRequest {1}', [None, 'Z', None, None, None, None])},
+             bind={'IsActive()': Bb('active'), 'IsPaused()': Bb('paused'), 'GetEnableNotifications()': Bb('enable_notifications'),
+                   'GetLastCheckResult()': ('has_cr', 'ptr'), 'GetLastCheckResult()->GetState()': Zb('cr_state'),
+                   'GetStateType()': Zb('state_type'), 'GetStateBeforeSuppression()': Zb('sbs'),
+                   'dynamic_cast<Host *>(this)': ('is_host', 'ptr'),
+                   'IsLikelyToBeCheckedSoon()': Bb('likely_soon'),
+                   '[lambda1].Get()': Bb('parent_recent')},
+             fns={'IsStateOK': ('src_checkable_is_state_ok is_host', ['Z'], 'bool'),
+                  'Host::CalculateState': ('src_host_calculate_state', ['Z'], 'Z'),
+                  'NotificationReasonSuppressed': ('(fun xt => src_checkable_notification_reason_suppressed xt reachable in_downtime acknowledged)', ['Z'], 'bool'),
+                  'NotificationReasonApplies': ('(fun xt => src_checkable_notification_reason_applies xt is_host has_cr cr_state flapping)', ['Z'], 'bool')}),
+    ]),
+    # ---------------------------------------------------------------------------------------- round 2: C03 BeginExecuteNotification regions, reminder conditions
+    dict(area='begin', requires=['Icv.Facts.Facts_enums', 'Icv.Src.XlPrelude', 'Icv.Facts.Facts_fn_notif'], items=[
+        dict(glue='begin_events', props=['C03'], deps=[], doc='effects of BeginExecuteNotification other than attribute writes: GetNotifiedProblemUsers()->Clear(), UpdateNotificationNumber()',
+             text='Inductive xb_ev := XbClearNpu | XbNumber.\n'),
+        # the notification-level filters: `if (!force) { period / times window / type filter / state filter } else { log }`;
+        # result = (left by `return`?, suppressed_notifications, next_notification, no_more_notifications, events)
+        dict(name='begin_gate', func='Notification::BeginExecuteNotification', file='lib/icinga/notification.cpp', props=['C03'],
+             region=(r'if\s*\(\s*!force\s*\)\s*\{', r'\{\s*ObjectLock\s+olock\s*\(this\);\s*UpdateNotificationNumber'), region_exit=True, outputs=[],
+             inputs=[('type', 'Z'), ('force', 'bool'), ('reminder', 'bool'), ('has_period', 'bool'), ('period_inside', 'bool'), ('now', 'Z'),
+                     ('has_times', 'bool'), ('begin_set', 'bool'), ('begin_v', 'Z'), ('end_set', 'bool'), ('end_v', 'Z'), ('lhsc', 'Z'),
+                     ('type_filter', 'Z'), ('interval', 'Z'), ('is_svc', 'bool'), ('state', 'Z'), ('state_filter', 'Z'),
+                     ('supp0', 'Z'), ('next0', 'Z'), ('nomore0', 'bool')],
+             ret='void', rcoq='bool * Z * Z * bool * list xb_ev', dummy='(false, 0, 0, false, nil)',
+             params={'type': Zb('type'), 'force': Bb('force'), 'reminder': Bb('reminder')},
+             aliases={'checkable': 'GetCheckable()'}, symbolic_types=['Value'],
+             state=[('$supp', 'supp0', 'Z'), ('$next', 'next0', 'Z'), ('$nomore', 'nomore0', 'bool'), ('$events', '(@nil xb_ev)', 'list xb_ev')],
+             getters={'GetSuppressedNotifications()': '$supp'},
+             setters={'SetSuppressedNotifications': '$supp', 'SetNextNotification': '$next', 'SetNoMoreNotifications': '$nomore'},
+             emits={'GetNotifiedProblemUsers()->Clear': ('$events', 'XbClearNpu', [])},
+             stmts={'tie(host,service)=GetHostService(GetCheckable())': {'host': 'HOST', 'service': 'SVC'}},
+             bind={'GetPeriod()': ('has_period', 'ptr'), 'GetPeriod()->IsInside(Utility::GetTime())': Bb('period_inside'),
+                   'Utility::GetTime()': Zb('now'), 'GetTimes()': ('has_times', 'ptr'),
+                   'GetTimes()->Get("begin")!=Empty': Bb('begin_set'), 'GetTimes()->Get("begin")': Zb('begin_v'),
+                   'GetTimes()->Get("end")!=Empty': Bb('end_set'), 'GetTimes()->Get("end")': Zb('end_v'),
+                   'GetCheckable()->GetLastHardStateChange()': Zb('lhsc'),
+                   'GetTypeFilter()': Zb('type_filter'), 'GetInterval()': Zb('interval'), 'GetStateFilter()': Zb('state_filter'),
+                   'SVC': ('is_svc', 'ptr'), 'SVC->GetState()': Zb('state'), 'HOST->GetState()': Zb('state')},
+             fns={'ServiceStateToFilter': ('src_service_state_to_filter', ['Z'], 'Z'), 'HostStateToFilter': ('src_host_state_to_filter', ['Z'], 'Z')}),
+        # the bookkeeping block under the lock (notification number, last/next notification, no_more_notifications)
+        dict(name='begin_bookkeeping', func='Notification::BeginExecuteNotification', file='lib/icinga/notification.cpp', props=['C03'],
+             region=(r'\{\s*ObjectLock\s+olock\s*\(this\);\s*UpdateNotificationNumber', r'std::set<User::Ptr>\s+allUsers\s*;'), outputs=[],
+             inputs=[('type', 'Z'), ('now', 'Z'), ('interval', 'Z'), ('next0', 'Z'), ('nomore0', 'bool'), ('last0', 'Z'), ('lastp0', 'Z')],
+             ret='void', dummy='(0, false, 0, 0, nil)',
+             params={'type': Zb('type')},
+             state=[('$next', 'next0', 'Z'), ('$nomore', 'nomore0', 'bool'), ('$last', 'last0', 'Z'), ('$lastp', 'lastp0', 'Z'), ('$events', '(@nil xb_ev)', 'list xb_ev')],
+             setters={'SetNextNotification': '$next', 'SetNoMoreNotifications': '$nomore', 'SetLastNotification': '$last', 'SetLastProblemNotification': '$lastp'},
+             emits={'UpdateNotificationNumber': ('$events', 'XbNumber', [])},
+             bind={'Utility::GetTime()': Zb('now'), 'GetInterval()': Zb('interval')}),
+        # one iteration of the per-user loop up to the point where the command is queued: left by `continue` = the user is skipped
+        dict(name='begin_user_skipped', func='Notification::BeginExecuteNotification', file='lib/icinga/notification.cpp', props=['C03'],
+             region=(r'if\s*\(\s*!user->GetEnableNotifications\(\)\s*\)', r'Log\(LogInformation,\s*"Notification"\)\s*<<\s*"Sending "'), region_exit=True, outputs=[],
+             inputs=[('type', 'Z'), ('force', 'bool'), ('reminder', 'bool'), ('u_enable', 'bool'), ('u_has_period', 'bool'), ('u_period_inside', 'bool'),
+                     ('u_type_filter', 'Z'), ('is_svc', 'bool'), ('state', 'Z'), ('u_state_filter', 'Z'), ('was_notified', 'bool'), ('volatile', 'bool'),
+                     ('last_notified_state', 'Z')],
+             ret='void', rcoq='bool', dummy='false',
+             params={'type': Zb('type'), 'force': Bb('force'), 'reminder': Bb('reminder')},
+             aliases={'checkable': 'GetCheckable()', 'user': 'user', 'userName': 'user->GetName()', 'notifiedProblemUsers': 'GetNotifiedProblemUsers()'},
+             stmts={'auto[host,service]=GetHostService(GetCheckable())': {'host': 'HOST', 'service': 'SVC'}},
+             bind={'user->GetEnableNotifications()': Bb('u_enable'), 'user->GetTypeFilter()': Zb('u_type_filter'),
+                   'GetNotifiedProblemUsers()->Contains(user->GetName())': Bb('was_notified'),
+                   'GetCheckable()->GetVolatile()': Bb('volatile'),
+                   'SVC': ('is_svc', 'ptr'), 'SVC->GetState()': Zb('state'), 'HOST->GetState()': Zb('state'),
+                   'GetLastNotifiedStatePerUser()->Get(user->GetName())': Zb('last_notified_state')},
+             fns={'CheckNotificationUserFilters': ('(fun xt xf xr => src_notification_check_user_filters xt xf xr u_has_period u_period_inside u_type_filter is_svc state u_state_filter)',
+                                                   ['Z', None, 'bool', 'bool'], 'bool')}),
+        # the reminder part of NotificationComponent::NotificationTimerHandler: left by `continue` = no reminder is sent
+        dict(name='timer_reminder_skipped', func='NotificationComponent::NotificationTimerHandler', file='lib/notification/notificationcomponent.cpp', props=['C03'],
+             region=(r'if\s*\(\s*notification->GetInterval\(\)\s*<=\s*0', r'try\s*\{'), region_exit=True, outputs=[],
+             inputs=[('now', 'Z'), ('now2', 'Z'), ('interval', 'Z'), ('nomore', 'bool'), ('next0', 'Z'), ('state_type', 'Z'), ('is_svc', 'bool'), ('state', 'Z'),
+                     ('ck_supp', 'Z'), ('nf_supp', 'Z'), ('reachable', 'bool'), ('in_downtime', 'bool'), ('acknowledged', 'bool'), ('flapping', 'bool')],
+             ret='void', rcoq='bool * Z', dummy='(false, 0)',
+             locals={'now': Zb('now'), 'reachable': Bb('reachable')},
+             aliases={'notification': 'notification', 'checkable': 'CK'},
+             state=[('$next', 'next0', 'Z')], getters={'notification->GetNextNotification()': '$next'}, setters={'notification->SetNextNotification': '$next'},
+             stmts={'tie(host,service)=GetHostService(CK)': {'host': 'HOST', 'service': 'SVC'}},
+             bind={'notification->GetInterval()': Zb('interval'), 'notification->GetNoMoreNotifications()': Bb('nomore'),
+                   'Utility::GetTime()': Zb('now2'), 'CK->GetStateType()': Zb('state_type'),
+                   'SVC': ('is_svc', 'ptr'), 'SVC->GetState()': Zb('state'), 'HOST->GetState()': Zb('state'),
+                   'CK->GetSuppressedNotifications()': Zb('ck_supp'), 'notification->GetSuppressedNotifications()': Zb('nf_supp'),
+                   'CK->IsInDowntime()': Bb('in_downtime'), 'CK->IsAcknowledged()': Bb('acknowledged'), 'CK->IsFlapping()': Bb('flapping')}),
+    ]),
+    # ---------------------------------------------------------------------------------------- round 2: C06 acknowledgements
+    dict(area='ack', requires=['Icv.Facts.Facts_enums', 'Icv.Src.XlPrelude', 'Icv.Facts.Facts_fn_ck'], items=[
+        dict(glue='ack_events', props=['C06'], deps=[], doc='effects of the acknowledgement functions other than attribute writes, in program order',
+             text='Inductive xa_ev := XaCleared | XaSet (type : Z) | XaNotify (type : Z) | XaApply.\n'),
+        dict(name='checkable_is_acknowledged', func='Checkable::IsAcknowledged', file='lib/icinga/checkable.cpp', props=['C06', 'C02'],
+             inputs=[('now', 'Z'), ('ack_raw', 'Z'), ('ack_expiry', 'Z')], ret='bool',
+             bind={'const_cast<Checkable *>(this)->GetAcknowledgement()': ('fst (src_checkable_get_acknowledgement now ack_raw ack_expiry)', 'Z'),
+                   'GetAcknowledgementRaw()': Zb('ack_raw'), 'GetAcknowledgementExpiry()': Zb('ack_expiry'), 'Utility::GetTime()': Zb('now')}),
+        dict(name='checkable_clear_acknowledgement', func='Checkable::ClearAcknowledgement', file='lib/icinga/checkable.cpp', props=['C06'],
+             inputs=[('ack_raw', 'Z'), ('ack_expiry', 'Z'), ('change_time', 'Z'), ('last_change0', 'Z')], ret='void', dummy='(0, 0, 0, nil)',
+             params={'changeTime': Zb('change_time')},
+             state=[('$raw', 'ack_raw', 'Z'), ('$exp', 'ack_expiry', 'Z'), ('$lastchange', 'last_change0', 'Z'), ('$events', '(@nil xa_ev)', 'list xa_ev')],
+             getters={'GetAcknowledgementRaw()': '$raw', 'GetAcknowledgementExpiry()': '$exp'},
+             setters={'SetAcknowledgementRaw': '$raw', 'SetAcknowledgementExpiry': '$exp', 'SetAcknowledgementLastChange': '$lastchange'},
+             emits={'OnAcknowledgementCleared': ('$events', 'XaCleared', [None, None, None, None])}),
+        dict(name='checkable_acknowledge_problem', func='Checkable::AcknowledgeProblem', file='lib/icinga/checkable.cpp', props=['C06'],
+             inputs=[('type', 'Z'), ('notify', 'bool'), ('expiry', 'Z'), ('change_time', 'Z'), ('paused', 'bool'), ('ack_raw', 'Z'), ('ack_expiry', 'Z'),
+                     ('last_change0', 'Z')], ret='void', dummy='(0, 0, 0, nil)',
+             params={'type': Zb('type'), 'notify': Bb('notify'), 'expiry': Zb('expiry'), 'changeTime': Zb('change_time')},
+             state=[('$raw', 'ack_raw', 'Z'), ('$exp', 'ack_expiry', 'Z'), ('$lastchange', 'last_change0', 'Z'), ('$events', '(@nil xa_ev)', 'list xa_ev')],
+             setters={'SetAcknowledgementRaw': '$raw', 'SetAcknowledgementExpiry': '$exp', 'SetAcknowledgementLastChange': '$lastchange'},
+             emits={'OnNotificationsRequested': ('$events', 'XaNotify {1}', [None, 'Z', None, None, None, None]),
+                    'OnAcknowledgementSet': ('$events', 'XaSet {3}', [None, None, None, 'Z', None, None, None, None, None])},
+             bind={'IsPaused()': Bb('paused')}),
+        dict(glue='ack_state_passing', props=['C06'], deps=['checkable_get_acknowledgement', 'checkable_clear_acknowledgement'],
+             doc='GetAcknowledgement() / ClearAcknowledgement("") as STATE TRANSFORMERS over (acknowledgement_raw, acknowledgement_expiry, events): '
+                 'every ClearAcknowledgement("") the translated GetAcknowledgement reports is executed by the translated ClearAcknowledgement',
+             text='Definition xa_clear (raw exp : Z) (evs : list xa_ev) : Z * Z * list xa_ev :=\n'
+                  "  let '(raw', exp', _, ev') := src_checkable_clear_acknowledgement raw exp 0 0 in (raw', exp', evs ++ ev').\n"
+                  'Definition xa_get_ack (now raw exp : Z) (evs : list xa_ev) : Z * Z * Z * list xa_ev :=\n'
+                  "  let '(v, cl) := src_checkable_get_acknowledgement now raw exp in\n"
+                  "  match cl with [] => (v, raw, exp, evs) | _ :: _ => let '(raw', exp', evs') := xa_clear raw exp evs in (v, raw', exp', evs') end.\n"),
+        # the "remove acknowledgements" block of ProcessCheckResult: GetAcknowledgement() is read up to three times, with its lazy
+        # expiry and ClearAcknowledgement("") writing in between -> explicit state passing
+        dict(name='pcr_ack_clear', func='Checkable::ProcessCheckResult', file='lib/icinga/checkable-check.cpp', props=['C06'],
+             region=(r'if\s*\(\s*stateChange\s*\)\s*\{\s*SetLastStateChange', r'bool\s+hardChange\s*='), outputs=['remove_acknowledgement_comments'],
+             inputs=[('now', 'Z'), ('is_host', 'bool'), ('state_change', 'bool'), ('new_state', 'Z'), ('cr_end', 'Z'), ('lsc0', 'Z'),
+                     ('ack_raw', 'Z'), ('ack_expiry', 'Z')], ret='void', rcoq='bool * Z * Z * Z * list xa_ev', dummy='(false, 0, 0, 0, nil)',
+             locals={'stateChange': Bb('state_change'), 'new_state': Zb('new_state')},
+             state=[('$lsc', 'lsc0', 'Z'), ('$raw', 'ack_raw', 'Z'), ('$exp', 'ack_expiry', 'Z'), ('$events', '(@nil xa_ev)', 'list xa_ev')],
+             setters={'SetLastStateChange': '$lsc'},
+             calls_st={'GetAcknowledgement()': dict(term='xa_get_ack now {$raw} {$exp} {$events}', updates=['$raw', '$exp', '$events'], ret='Z'),
+                       'ClearAcknowledgement': dict(term='xa_clear {$raw} {$exp} {$events}', updates=['$raw', '$exp', '$events'], ret=None, args=[None])},
+             bind={'cr->GetExecutionEnd()': Zb('cr_end')},
+             fns={'IsStateOK': ('src_checkable_is_state_ok is_host', ['Z'], 'bool')}),
+        # preconditions of the API action (expiry in the future, not OK/Up, not already acknowledged): HTTP status of the refusal, 0 = proceeds
+        dict(name='apiactions_acknowledge_problem_refusal', func='ApiActions::AcknowledgeProblem', file='lib/icinga/apiactions.cpp', props=['C06'],
+             region=(r'if\s*\(\s*params->Contains\("expiry"\)\s*\)', r'ConfigObjectsSharedLock\s+lock'), region_exit=True, exit_code_of='ApiActions::CreateResult',
+             outputs=['timestamp'],
+             inputs=[('now', 'Z'), ('expiry_given', 'bool'), ('expiry_param', 'Z'), ('timestamp0', 'Z'), ('is_svc', 'bool'), ('state', 'Z'),
+                     ('ack_raw', 'Z'), ('ack_expiry', 'Z')], ret='void', rcoq='Z * Z', dummy='(0, 0)',
+             locals={'timestamp': Zb('timestamp0')}, aliases={'checkable': 'CK'},
+             skip=[r'^Log\(', r'^ObjectLock '],
+             stmts={'tie(host,service)=GetHostService(CK)': {'host': 'HOST', 'service': 'SVC'}},
+             bind={'params->Contains("expiry")': Bb('expiry_given'), 'HttpUtility::GetLastParameter(params,"expiry")': Zb('expiry_param'),
+                   'Utility::GetTime()': Zb('now'), 'SVC': ('is_svc', 'ptr'), 'SVC->GetState()': Zb('state'), 'HOST->GetState()': Zb('state'),
+                   'CK->IsAcknowledged()': ('src_checkable_is_acknowledged now ack_raw ack_expiry', 'bool')}),
+        # the cluster handler: AcknowledgeProblem is applied iff the message passes the origin checks and the object is not acknowledged
+        dict(name='clusterevents_acknowledgement_set_handler', func='ClusterEvents::AcknowledgementSetAPIHandler', file='lib/icinga/clusterevents.cpp', props=['C06'],
+             inputs=[('now', 'Z'), ('has_endpoint', 'bool'), ('has_host', 'bool'), ('has_service_param', 'bool'), ('has_checkable', 'bool'), ('from_zone', 'bool'), ('can_access', 'bool'),
+                     ('ack_raw', 'Z'), ('ack_expiry', 'Z')], ret='Z', rcoq='Z * list xa_ev', dummy='(0, nil)',
+             state=[('$events', '(@nil xa_ev)', 'list xa_ev')],
+             emits={'checkable->AcknowledgeProblem': ('$events', 'XaApply', [None] * 8)},
+             skip=[r'^Log\(', r'^ObjectLock '],
+             bind={'Empty': ('0', 'Z'), 'origin->FromClient->GetEndpoint()': ('has_endpoint', 'ptr'), 'Host::GetByName(params->Get("host"))': ('has_host', 'ptr'),
+                   'params->Contains("service")': Bb('has_service_param'), 'checkable': ('has_checkable', 'ptr'),
+                   'origin->FromZone': ('from_zone', 'ptr'), 'origin->FromZone->CanAccessObject(checkable)': Bb('can_access'),
+                   'checkable->IsAcknowledged()': ('src_checkable_is_acknowledged now ack_raw ack_expiry', 'bool')}),
+    ]),
+    # ---------------------------------------------------------------------------------------- round 2: C05 downtime start / removal / timers
+    dict(area='dt', requires=['Icv.Facts.Facts_enums', 'Icv.Src.XlPrelude', 'Icv.Ck.CkFull', 'Icv.Facts.Facts_fn_ck'], items=[
+        dict(glue='downtime_events2', props=['C05'], deps=['downtime_trigger_downtime'],
+             doc='effects of Downtime::Start / RemoveDowntime / the two timer handlers, in program order; TriggerDowntime(t) on this object as a '
+                 'state transformer over trigger_time built from the TRANSLATED TriggerDowntime (its own effects are kept as one event)',
+             text='Definition xdt_name := Z.\n'
+                  'Inductive xs_ev := XsStarted | XsTrigger (t : Z) (inner : list xdt_ev) | XsRemoveChild (name : Z) | XsRemovalInfo | XsThrow\n'
+                  '  | XsRemove (name : Z) (children : bool) (reason : Z).\n'
+                  'Definition xs_trigger (now : Z) (fixed : bool) (start_time end_time trigger_time duration : Z) (triggers : list Z) (dt_exists : Z -> bool)\n'
+                  '  (t : Z) (evs : list xs_ev) : Z * list xs_ev :=\n'
+                  "  let '(tr, inner) := src_downtime_trigger_downtime now fixed start_time end_time trigger_time duration t triggers dt_exists in\n"
+                  '  (tr, evs ++ [XsTrigger t inner]).\n'),
+        # Downtime::Start: the two trigger decisions; CanBeTriggered() is read AFTER the first TriggerDowntime may have written trigger_time
+        dict(name='downtime_start_trigger', func='Downtime::Start', file='lib/icinga/downtime.cpp', props=['C05'],
+             region=(r'if\s*\(\s*!GetFixed\(\)\s*&&\s*checkable->GetProblem\(\)\s*\)', r'\s*\Z'), outputs=[],
+             inputs=DT_IN + [('entry_time', 'Z'), ('problem', 'bool'), ('lsc', 'Z'), ('triggers', 'list Z'), ('dt_exists', 'Z -> bool')],
+             ret='void', dummy='(0, nil)', aliases={'checkable': 'GetCheckable()'},
+             state=[('$trigger_time', 'trigger_time', 'Z'), ('$events', '(@nil xs_ev)', 'list xs_ev')],
+             calls_st={'TriggerDowntime': dict(term='xs_trigger now fixed start_time end_time {$trigger_time} duration triggers dt_exists {0} {$events}',
+                                               updates=['$trigger_time', '$events'], ret=None, args=['Z'])},
+             emits={'OnDowntimeStarted': ('$events', 'XsStarted', [None])},
+             fns={'std::fmax': ('Z.max', ['Z', 'Z'], 'Z')},
+             bind=dict({k: v for k, v in DT_BIND.items() if k != 'GetTriggerTime()'},
+                       **{'GetEntryTime()': Zb('entry_time'), 'GetCheckable()->GetProblem()': Bb('problem'), 'GetCheckable()->GetLastStateChange()': Zb('lsc'),
+                          'CanBeTriggered()': ('src_downtime_can_be_triggered ' + DT_ARGS.replace('trigger_time', '{$trigger_time}'), 'bool')})),
+        # Downtime::RemoveDowntime up to the deletion: silent return, refusal (exception), recursion into the children, removal info
+        dict(name='downtime_remove_pre', func='Downtime::RemoveDowntime', file='lib/icinga/downtime.cpp', props=['C05'],
+             region=(r'Downtime::Ptr\s+downtime\s*=\s*Downtime::GetByName\(id\);', r'Array::Ptr\s+errors\s*='), region_exit=True, outputs=[],
+             inputs=[('found', 'bool'), ('is_api', 'bool'), ('owned', 'bool'), ('include_children', 'bool'), ('reason', 'Z'), ('children', 'list xdt_name')],
+             ret='void', rcoq='bool * list xs_ev', dummy='(false, nil)', abort='(true, [XsThrow])', abort_stmts=[r'^BOOST_THROW_EXCEPTION\('],
+             params={'includeChildren': Bb('include_children'), 'removalReason': Zb('reason')},
+             state=[('$events', '(@nil xs_ev)', 'list xs_ev')],
+             lists={'Downtime::GetByName(id)->GetChildren()': ('children', 'xdt_name')},
+             emits={'Downtime::RemoveDowntime': ('$events', 'XsRemoveChild {0}', ['Z', None, None, None]),
+                    'downtime->SetRemovalInfo': ('$events', 'XsRemovalInfo', [None, None])},
+             bind={'Downtime::GetByName(id)': ('found', 'ptr'), 'Downtime::GetByName(id)->GetPackage()!="_api"': ('negb is_api', 'bool'),
+                   'Downtime::GetByName(id)->GetConfigOwner().IsEmpty()': ('negb owned', 'bool'), 'child->GetName()': Zb('child')}),
+        # one iteration of DowntimesStartTimerHandler / DowntimesOrphanedTimerHandler (the attributes are those of the downtime at that moment)
+        dict(name='downtime_start_timer_iter', func='Downtime::DowntimesStartTimerHandler', file='lib/icinga/downtime.cpp', props=['C05'],
+             region=(r'if\s*\(\s*downtime->IsActive\(\)\s*&&', r'\}\s*\Z'), outputs=[],
+             inputs=DT_IN + [('entry_time', 'Z'), ('active', 'bool')], ret='void', dummy='nil', aliases={'downtime': 'downtime'},
+             state=[('$events', '(@nil xs_ev)', 'list xs_ev')],
+             emits={'OnDowntimeStarted': ('$events', 'XsStarted', [None]), 'downtime->TriggerDowntime': ('$events', 'XsTrigger {0} nil', ['Z'])},
+             fns={'std::fmax': ('Z.max', ['Z', 'Z'], 'Z')},
+             bind={'downtime->IsActive()': Bb('active'), 'downtime->GetFixed()': Bb('fixed'), 'downtime->GetStartTime()': Zb('start_time'),
+                   'downtime->GetEntryTime()': Zb('entry_time'),
+                   'downtime->CanBeTriggered()': ('src_downtime_can_be_triggered ' + DT_ARGS, 'bool')}),
+        dict(name='downtime_orphaned_timer_iter', func='Downtime::DowntimesOrphanedTimerHandler', file='lib/icinga/downtime.cpp', props=['C05'],
+             region=(r'if\s*\(\s*downtime->IsActive\(\)\s*&&', r'\}\s*\Z'), outputs=[],
+             inputs=[('name', 'Z'), ('active', 'bool'), ('valid_owner', 'bool')], ret='void', dummy='nil', aliases={'downtime': 'downtime'},
+             state=[('$events', '(@nil xs_ev)', 'list xs_ev')],
+             emits={'RemoveDowntime': ('$events', 'XsRemove {0} {1} {2}', ['Z', 'bool', 'Z'])},
+             bind={'downtime->IsActive()': Bb('active'), 'downtime->HasValidConfigOwner()': Bb('valid_owner'), 'downtime->GetName()': Zb('name')}),
+    ]),
+    # ---------------------------------------------------------------------------------------- round 2: C10 UpdateObjectAuthority, SetAuthority
+    dict(area='auth2', requires=['Icv.Src.XlPrelude', 'Icv.Auth.AuModel', 'Icv.Facts.Facts_fn_auth'], items=[
+        dict(glue='authority_events', props=['C10'], deps=[], doc='effects of ConfigObject::SetAuthority other than attribute writes (the virtual Resume() / Pause() calls)',
+             text='Inductive xau_ev := XauResume | XauPause.\n'
+                  'Definition xau_len (l : list au_bytes) : Z := Z.of_nat (List.length l).\n'),
+        # the collection of the connected endpoints of the local zone and the cold-start early return
+        dict(name='update_authority_endpoints', func='ApiListener::UpdateObjectAuthority', file='lib/remote/apilistener-authority.cpp', props=['C10'],
+             region=(r'int\s+num_total\s*=\s*0\s*;', r'std::sort\s*\('), region_exit=True, outputs=['endpoints'],
+             inputs=[('members', 'list au_bytes'), ('me', 'au_bytes'), ('conn', 'au_bytes -> bool'), ('now', 'Z'), ('start', 'Z')],
+             ret='void', rcoq='bool * list au_bytes', dummy='(false, nil)',
+             types={'ep': dict(coq='au_bytes', eqb='au_beq'), 'eplist': dict(coq='list au_bytes', elem='ep', default='[]')},
+             locals={'endpoints': ('(@nil au_bytes)', 'eplist')}, aliases={'my_endpoint': 'ME', 'my_zone': 'ZONE'},
+             lists={'ZONE->GetEndpoints()': ('members', 'ep')}, appends={'endpoints.push_back': 'endpoints'},
+             bind={'ME': ('me', 'ep'), 'Application::GetStartTime()': Zb('start'), 'Utility::GetTime()': Zb('now')},
+             fns={'ep->GetConnected': ('conn', ['ep'], 'bool'), 'eplist.size': ('xau_len', ['eplist'], 'u64')}),
+        # the authority of one object: true without a zone, otherwise the endpoint at SDBM(name) % size is this endpoint
+        dict(name='update_authority_decision', func='ApiListener::UpdateObjectAuthority', file='lib/remote/apilistener-authority.cpp', props=['C10'],
+             region=(r'bool\s+authority\s*;', r'object->SetAuthority\s*\('), outputs=['authority'],
+             inputs=[('has_zone', 'bool'), ('endpoints', 'list au_bytes'), ('me', 'au_bytes'), ('name', 'list Z'), ('npos', 'Z')],
+             ret='void', rcoq='bool', dummy='false',
+             types={'ep': dict(coq='au_bytes', eqb='au_beq'), 'eplist': dict(coq='list au_bytes', elem='ep', default='[]')},
+             locals={'endpoints': ('endpoints', 'eplist')}, aliases={'my_endpoint': 'ME', 'my_zone': 'ZONE'},
+             bind={'ME': ('me', 'ep'), 'ZONE': ('has_zone', 'ptr'), 'object->GetName()': ('name', 'chars')},
+             fns={'Utility::SDBM': ('(fun xs => src_utility_sdbm xs npos)', ['chars'], 'u64'), 'eplist.size': ('xau_len', ['eplist'], 'u64')}),
+        dict(name='configobject_set_authority', func='ConfigObject::SetAuthority', file='lib/base/configobject.cpp', props=['C10'],
+             inputs=[('authority', 'bool'), ('paused0', 'bool')], ret='void', dummy='(false, nil)',
+             params={'authority': Bb('authority')},
+             state=[('$paused', 'paused0', 'bool'), ('$events', '(@nil xau_ev)', 'list xau_ev')],
+             getters={'GetPaused()': '$paused'}, setters={'SetPaused': '$paused'},
+             emits={'Resume': ('$events', 'XauResume', []), 'Pause': ('$events', 'XauPause', [])},
+             skip=[r'^Log\(', r'^ObjectLock ', r'^SetResumeCalled\(false\)$', r'^SetPauseCalled\(false\)$', r'^ASSERT\(GetResumeCalled\(\)\)$', r'^ASSERT\(GetPauseCalled\(\)\)$']),
+    ]),
+    # ---------------------------------------------------------------------------------------- round 2: C13/C11 message origin, relay target zones
+    dict(area='zone2', requires=['Icv.Src.XlPrelude', 'Icv.Msg.MzModel', 'Icv.Facts.Facts_fn_zone'], items=[
+        # JsonRpcConnection::MessageHandler: the "ignore old messages" filter and the construction of the origin (FromZone)
+        dict(name='jsonrpc_message_origin', func='JsonRpcConnection::MessageHandler', file='lib/remote/jsonrpcconnection.cpp', props=['C13', 'C11'],
+             region=(r'if\s*\(\s*m_Endpoint\s*&&\s*message->Contains\("ts"\)\s*\)', r'Value\s+vmethod\s*;'), region_exit=True, outputs=[],
+             inputs=[('has_ep', 'bool'), ('has_ts', 'bool'), ('ts', 'Z'), ('rlp0', 'Z'), ('ep_zone', 'option nat'), ('l', 'nat'), ('claim', 'option nat')],
+             ret='void', rcoq='bool * Z * option nat', dummy='(false, 0, None)',
+             types={'zptr': dict(coq='option nat', truth='xz_some', eqb='xz_eqb')}, ctypes={'Zone::Ptr': 'zptr'},
+             state=[('$rlp', 'rlp0', 'Z'), ('$fz', '(@None nat)', 'zptr')],
+             getters={'m_Endpoint->GetRemoteLogPosition()': '$rlp'}, setters={'m_Endpoint->SetRemoteLogPosition': '$rlp'},
+             assigns={'[new MessageOrigin]->FromZone': '$fz'},
+             skip=[r'^Log\(', r'^\[new MessageOrigin\]->FromClient=this$'],
+             bind={'m_Endpoint': ('has_ep', 'ptr'), 'message->Contains("ts")': Bb('has_ts'), 'message->Get("ts")': Zb('ts'),
+                   'm_Endpoint->GetZone()': ('ep_zone', 'zptr'), 'Zone::GetLocalZone()': ('Some l', 'zptr'),
+                   'Zone::GetByName(message->Get("originZone"))': ('claim', 'zptr')}),
+        # ApiListener::RelayMessageOne: which zones are candidates at all (early return; the local zone and its children for a global zone)
+        dict(name='relay_target_zones', func='ApiListener::RelayMessageOne', file='lib/remote/apilistener.cpp', props=['C13', 'C11'],
+             region=(r'if\s*\(\s*!targetZone->GetGlobal\(\)\s*&&', r'bool\s+needsReplay\s*='), region_exit=True, exit_ignore_value=True, outputs=['allTargetZones'],
+             inputs=[('t', 'mz_tree'), ('l', 'nat'), ('a', 'nat'), ('zones', 'list (option nat)')],
+             ret='void', rcoq='bool * list (option nat)', dummy='(false, nil)',
+             types={'zptr': dict(coq='option nat', truth='xz_some', eqb='xz_eqb'), 'zlist': dict(coq='list (option nat)', elem='zptr', default='None')},
+             ctypes={'Zone::Ptr': 'zptr', 'std::set<>': 'zlist'},
+             params={'targetZone': ('Some a', 'zptr')}, locals={'localZone': ('(Some l)', 'zptr'), 'allTargetZones': ('(@nil (option nat))', 'zlist')},     # the set is empty when the region is left before its declaration
+             lists={'ConfigType::GetObjectsByType<>()': ('zones', 'zptr')}, appends={'allTargetZones.insert': 'allTargetZones'},
+             fns={'zptr->GetGlobal': ('xz_global t', ['zptr'], 'bool'), 'zptr->GetParent': ('xz_parent t', ['zptr'], 'zptr')}),
+    ]),
+    # ---------------------------------------------------------------------------------------- round 2: C12 replay / clean-up conditions
+    dict(area='replay', requires=['Icv.Src.XlPrelude', 'Icv.Replay.RlModel'], items=[
+        # ReplayLog: is a decoded log entry skipped (already seen by the peer, security object gone or not accessible)?
+        dict(name='replaylog_entry_skipped', func='ApiListener::ReplayLog', file='lib/remote/apilistener.cpp', props=['C12'],
+             region=(r'if\s*\(\s*pmessage->Get\("timestamp"\)\s*<=\s*peer_ts\s*\)', r'try\s*\{\s*client->SendRawMessage'), region_exit=True, outputs=[],
+             inputs=[('ts', 'Z'), ('peer_ts', 'Z'), ('has_sec', 'bool'), ('obj_found', 'bool'), ('can_access', 'bool')],
+             ret='void', rcoq='bool', dummy='false',
+             locals={'peer_ts': Zb('peer_ts')}, aliases={'pmessage': 'pmessage', 'target_zone': 'target_zone'},
+             bind={'pmessage->Get("timestamp")': Zb('ts'), 'pmessage->Get("secobj")': ('has_sec', 'ptr'),
+                   'ConfigObject::GetObject(pmessage->Get("secobj")->Get("type"),pmessage->Get("secobj")->Get("name"))': ('obj_found', 'ptr'),
+                   'target_zone->CanAccessObject(ConfigObject::GetObject(pmessage->Get("secobj")->Get("type"),pmessage->Get("secobj")->Get("name")))': Bb('can_access')}),
+        # ApiTimerHandler: does this endpoint still need the log file named ts?  (one iteration of the inner loop; need is set before the break)
+        dict(name='apitimer_file_needed_by', func='ApiListener::ApiTimerHandler', file='lib/remote/apilistener.cpp', props=['C12'],
+             region=(r'if\s*\(\s*endpoint\s*==\s*GetLocalEndpoint\(\)\s*\)\s*continue;\s*auto\s+zone', r'\}\s*if\s*\(\s*!need\s*\)'), region_exit=True, outputs=['need'],
+             inputs=[('t', 'rl_topo'), ('is_local', 'bool'), ('ep_zone', 'Z'), ('local_zone', 'Z'), ('log_duration', 'Z'), ('local_log_position', 'Z'),
+                     ('ts', 'Z'), ('now', 'Z'), ('need0', 'bool')],
+             ret='void', rcoq='bool * bool', dummy='(false, false)',
+             types={'rz': dict(coq='Z', eqb='Z.eqb')},
+             locals={'ts': Zb('ts'), 'now': Zb('now'), 'need': Bb('need0'), 'localZone': ('local_zone', 'rz')}, aliases={'endpoint': 'endpoint'},
+             bind={'endpoint==GetLocalEndpoint()': Bb('is_local'), 'endpoint->GetZone()': ('ep_zone', 'rz'),
+                   'endpoint->GetLogDuration()': Zb('log_duration'), 'endpoint->GetLocalLogPosition()': Zb('local_log_position')},
+             fns={'rz->GetParent': ('rl_zparent t', ['rz'], 'rz')}),
+    ]),
+    # ---------------------------------------------------------------------------------------- round 2: C08 segment arithmetic of TimePeriod
+    dict(area='tp2', requires=['Icv.Src.XlPrelude'], items=[
+        # one iteration of the merge loop of AddSegment: the segment is edited in place (state $sb/$se); left by `return` = merged
+        dict(name='timeperiod_add_segment_iter', func='TimePeriod::AddSegment', file='lib/icinga/timeperiod.cpp', props=['C08'], nparams=2,
+             region=(r'if\s*\(\s*segment->Get\("begin"\)\s*<=\s*begin\s*&&\s*segment->Get\("end"\)\s*>=\s*end\s*\)', r'\}\s*\}\s*Dictionary::Ptr\s+segment\s*='),
+             region_exit=True, outputs=[],
+             inputs=[('b', 'Z'), ('e', 'Z'), ('sb0', 'Z'), ('se0', 'Z')], ret='void', rcoq='bool * Z * Z', dummy='(false, 0, 0)',
+             params={'begin': Zb('b'), 'end': Zb('e')}, aliases={'segment': 'segment'},
+             state=[('$sb', 'sb0', 'Z'), ('$se', 'se0', 'Z')],
+             getters={'segment->Get("begin")': '$sb', 'segment->Get("end")': '$se'},
+             setters={'segment->Set("begin")': '$sb', 'segment->Set("end")': '$se'}),
+        # one iteration of the loop of RemoveSegment: what is appended to newSegments
+        dict(name='timeperiod_remove_segment_iter', func='TimePeriod::RemoveSegment', file='lib/icinga/timeperiod.cpp', props=['C08'], nparams=2,
+             region=(r'if\s*\(\s*segment->Get\("begin"\)\s*>=\s*begin\s*&&\s*segment->Get\("end"\)\s*<=\s*end\s*\)\s*continue;', r'\}\s*SetSegments\(newSegments\)'),
+             region_exit=True, outputs=[],
+             inputs=[('b', 'Z'), ('e', 'Z'), ('sb0', 'Z'), ('se0', 'Z')], ret='void', rcoq='bool * Z * Z * list (Z * Z)', dummy='(false, 0, 0, nil)',
+             params={'begin': Zb('b'), 'end': Zb('e')}, aliases={'segment': 'segment', 'newSegments': 'newSegments'},
+             types={'seg': dict(coq='(Z * Z)%type')}, dict_shape=('seg', ['begin', 'end']),
+             state=[('$sb', 'sb0', 'Z'), ('$se', 'se0', 'Z'), ('$out', '(@nil (Z * Z))', 'list (Z * Z)')],
+             getters={'segment->Get("begin")': '$sb', 'segment->Get("end")': '$se'},
+             setters={'segment->Set("begin")': '$sb', 'segment->Set("end")': '$se'},
+             bind={'segment': ('({$sb}, {$se})', 'seg')},
+             emits={'newSegments->Add': ('$out', '{0}', ['seg'])}),
+        # PurgeSegments as a whole: early returns, valid_begin, the filtered copy handed to SetSegments
+        dict(name='timeperiod_purge_segments', func='TimePeriod::PurgeSegments', file='lib/icinga/timeperiod.cpp', props=['C08'],
+             inputs=[('e', 'Z'), ('vb_empty', 'bool'), ('vb0', 'Z'), ('has_segments', 'bool'), ('segments', 'list (Z * Z)')],
+             ret='void', dummy='(0, nil, nil)',
+             params={'end': Zb('e')},
+             state=[('$vb', 'vb0', 'Z'), ('$out', '(@nil (Z * Z))', 'list (Z * Z)'), ('$set', '(@nil unit)', 'list unit')],
+             getters={'GetValidBegin()': '$vb'}, setters={'SetValidBegin': '$vb'},
+             skip=[r'^Log\(', r'^ObjectLock ', r'^ASSERT\(OwnsLock\(\)\)$'],
+             emits={'newSegments->Add': ('$out', 'segment', [None]), 'SetSegments': ('$set', 'tt', [None])},
+             bind={'GetValidBegin().IsEmpty()': Bb('vb_empty'), 'GetSegments()': ('has_segments', 'ptr'), 'segment->Get("end")': ('snd segment', 'Z')},
+             lists={'GetSegments()': ('segments', '(Z * Z)%type')}),
+    ]),
+    # ---------------------------------------------------------------------------------------- round 2: C09 argument assembly, shell escaping
+    dict(area='macro2', requires=['Icv.Src.XlPrelude', 'Icv.Macro.MxDefs', 'Icv.Macro.MxModel'], items=[
+        dict(name='macroprocessor_add_argument_helper', func='MacroProcessor::AddArgumentHelper', file='lib/icinga/macroprocessor.cpp', props=['C09'],
+             inputs=[('key', 'mx_bytes'), ('value', 'mx_bytes'), ('add_key', 'bool'), ('add_value', 'bool'), ('sep_set', 'bool'), ('sep', 'mx_bytes')],
+             ret='void', dummy='nil',
+             types={'bytes': dict(coq='mx_bytes', elem='byte', default='0%N'), 'byte': dict(coq='N', eqb='N.eqb')},
+             strings=dict(string='bytes', char='byte', lit='%d%%N'),
+             params={'key': ('key', 'bytes'), 'value': ('value', 'bytes'), 'add_key': Bb('add_key'), 'add_value': Bb('add_value'), 'separator': ('sep', 'bytes')},
+             state=[('$out', '(@nil mx_bytes)', 'list mx_bytes')],
+             emits={'args->Add': ('$out', '{0}', ['bytes'])},
+             bind={'separator.GetType()!=ValueEmpty': Bb('sep_set')}),
+        # the emission of an array-valued argument: the key is repeated according to skip_key / repeat_key
+        dict(name='resolve_arguments_emit_array', func='MacroProcessor::ResolveArguments', file='lib/icinga/macroprocessor.cpp', props=['C09'],
+             region=(r'bool\s+first\s*=\s*true\s*;', r'\}\s*else\s*AddArgumentHelper\(command_arr,\s*arg\.Key,\s*arg\.AValue'), outputs=[],
+             inputs=[('key', 'mx_bytes'), ('skip_key', 'bool'), ('repeat_key', 'bool'), ('skip_value', 'bool'), ('sep_set', 'bool'), ('sep', 'mx_bytes'),
+                     ('values', 'list mx_bytes')], ret='void', dummy='nil',
+             types={'bytes': dict(coq='mx_bytes', elem='byte', default='0%N'), 'byte': dict(coq='N', eqb='N.eqb')},
+             state=[('$out', '(@nil mx_bytes)', 'list mx_bytes')],
+             lists={'static_cast<Array::Ptr>(arg.AValue)': ('values', 'bytes')},
+             calls_st={'AddArgumentHelper': dict(term='(fun xk xv xak xav => {$out} ++ src_macroprocessor_add_argument_helper xk xv xak xav sep_set sep) {0} {1} {2} {3}',
+                                                 updates=['$out'], ret=None, args=[None, 'bytes', 'bytes', 'bool', 'bool', None])},
+             bind={'arg.SkipKey': Bb('skip_key'), 'arg.RepeatKey': Bb('repeat_key'), 'arg.SkipValue': Bb('skip_value'), 'arg.Key': ('key', 'bytes')}),
+        dict(name='utility_escape_shell_arg', func='Utility::EscapeShellArg', file='lib/base/utility.cpp', props=['C09'],
+             inputs=[('s', 'mx_bytes')], ret='bytes', rcoq='mx_bytes', dummy='nil', defines={'_WIN32': False},
+             types={'bytes': dict(coq='mx_bytes', elem='byte', default='0%N'), 'byte': dict(coq='N', eqb='N.eqb')}, ctypes={'String': 'bytes', 'char': 'byte'},
+             strings=dict(string='bytes', char='byte', lit='%d%%N'),
+             lists={'s': ('s', 'byte')}),
+    ]),
+    # ---------------------------------------------------------------------------------------- round 2: C12/C11 RelayMessageOne, one target endpoint
+    dict(area='relay', requires=['Icv.Src.XlPrelude', 'Icv.Replay.RlModel'], items=[
+        dict(glue='relay_events', props=['C12', 'C11'], deps=[], doc='effects of one iteration of the endpoint loop of RelayMessageOne',
+             text='Inductive xrl_ev := XrlSkip | XrlSend.\n'),
+        dict(name='relay_endpoint_iter', func='ApiListener::RelayMessageOne', file='lib/remote/apilistener.cpp', props=['C12', 'C11'],
+             region=(r'if\s*\(\s*targetEndpoint\s*==\s*localEndpoint\s*\)\s*continue;', r'\}\s*if\s*\(\s*log_needed\s*&&\s*!log_done\s*\)'),
+             region_exit=True, outputs=['relayed', 'log_needed', 'log_done'],
+             inputs=[('is_self', 'bool'), ('connected', 'bool'), ('is_local_zone', 'bool'), ('relayed0', 'bool'), ('log_needed0', 'bool'), ('log_done0', 'bool'),
+                     ('has_origin', 'bool'), ('has_from_client', 'bool'), ('from_this_endpoint', 'bool'), ('has_from_zone', 'bool'), ('from_this_zone', 'bool'),
+                     ('we_are_master', 'bool'), ('target_is_master', 'bool')],
+             ret='void', rcoq='bool * bool * bool * bool * list xrl_ev', dummy='(false, false, false, false, nil)',
+             locals={'relayed': Bb('relayed0'), 'log_needed': Bb('log_needed0'), 'log_done': Bb('log_done0')},
+             aliases={'targetEndpoint': 'TE', 'localEndpoint': 'LE', 'currentTargetZone': 'CZ', 'localZone': 'LZ', 'currentZoneMaster': 'ZM',
+                      'skippedEndpoints': 'skippedEndpoints'},
+             state=[('$events', '(@nil xrl_ev)', 'list xrl_ev')],
+             emits={'skippedEndpoints.push_back': ('$events', 'XrlSkip', [None]), 'SyncSendMessage': ('$events', 'XrlSend', [None, None])},
+             bind={'TE==LE': Bb('is_self'), 'TE->GetConnected()': Bb('connected'), 'CZ==LZ': Bb('is_local_zone'), 'CZ!=LZ': ('negb is_local_zone', 'bool'),
+                   'origin': ('has_origin', 'ptr'), 'origin->FromClient': ('has_from_client', 'ptr'),
+                   'TE==origin->FromClient->GetEndpoint()': Bb('from_this_endpoint'), 'origin->FromZone': ('has_from_zone', 'ptr'),
+                   'CZ==origin->FromZone': Bb('from_this_zone'), 'ZM==LE': Bb('we_are_master'), 'TE!=ZM': ('negb target_is_master', 'bool')}),
+    ]),
+    # ---------------------------------------------------------------------------------------- round 2: C20 NetString header scanning (loop bodies)
+    dict(area='ns', requires=['Icv.Src.XlPrelude'], items=[
+        # body of `for (i = 0; i < Size; i++)`: looking for the colon; left early = break (header found) or exception (negative code)
+        dict(name='netstring_find_colon_iter', func='NetString::ReadStringFromStream', file='lib/base/netstring.cpp', props=['C20'], nparams=5,
+             region=(r"if\s*\(\s*context\.Buffer\[i\]\s*==\s*':'\s*\)", r'\}\s*if\s*\(\s*header_length\s*==\s*0\s*\)\s*\{\s*context\.MustRead'),
+             region_exit=True, outputs=['header_length'],
+             inputs=[('b', 'Z'), ('i', 'Z'), ('hl0', 'Z')], ret='void', rcoq='bool * Z', dummy='(false, 0)',
+             strings=dict(string='zbytes', char='Z', lit='%d'),
+             abort={r'no length specifier': '(true, -1)', r'missing :': '(true, -2)'}, abort_stmts=[r'^BOOST_THROW_EXCEPTION\('],
+             locals={'i': ('i', 'u64'), 'header_length': ('hl0', 'u64')},
+             bind={'context.Buffer[i]': Zb('b')}),
+        # body of the length loop: at most 9 digits, len = len * 10 + digit
+        dict(name='netstring_len_iter', func='NetString::ReadStringFromStream', file='lib/base/netstring.cpp', props=['C20'], nparams=5,
+             region=(r'for\s*\(\s*i\s*=\s*0\s*;\s*i\s*<\s*header_length\s*&&\s*isdigit\(context\.Buffer\[i\]\)\s*;\s*i\+\+\s*\)\s*\{', r'\}\s*size_t\s+data_length'),
+             region_after=True, region_exit=True, outputs=['len'],
+             inputs=[('b', 'Z'), ('i', 'Z'), ('len0', 'Z')], ret='void', rcoq='bool * Z', dummy='(false, 0)',
+             strings=dict(string='zbytes', char='Z', lit='%d'),
+             abort={r'must not exceed 9': '(true, -4)'}, abort_stmts=[r'^BOOST_THROW_EXCEPTION\('],
+             locals={'i': ('i', 'u64'), 'len': ('len0', 'u64')},
+             bind={'context.Buffer[i]': Zb('b')}),
+    ]),
+    # ---------------------------------------------------------------------------------------- round 2: C04 scheduler decision
+    dict(area='sched', requires=['Coq.QArith.QArith', 'Icv.Src.XlPrelude', 'Icv.Facts.Facts_enums', 'Icv.Sched.SchNext'], items=[
+        # Checkable::UpdateNextCheck over exact rationals (the model's reading of double; fmod / std::min are the model's sch_qfmod / sch_qmin)
+        dict(name='checkable_update_next_check', func='Checkable::UpdateNextCheck', file='lib/icinga/checkable-check.cpp', props=['C04'], real=True,
+             inputs=[('soft', 'bool'), ('has_cr', 'bool'), ('check_interval', 'Q'), ('retry_interval', 'Q'), ('now', 'Q'), ('offset', 'Z')],
+             ret='void', dummy='nil',
+             state=[('$out', '(@nil Q)', 'list Q')],
+             emits={'SetNextCheck': ('$out', '{0}', ['Q', None, None])},
+             fns={'fmod': ('sch_qfmod', ['Q', 'Q'], 'Q'), 'std::min': ('sch_qmin', ['Q', 'Q'], 'Q')},
+             bind={'GetStateType()==StateTypeSoft': Bb('soft'), 'GetLastCheckResult()!=nullptr': Bb('has_cr'),
+                   'GetRetryInterval()': ('retry_interval', 'Q'), 'GetCheckInterval()': ('check_interval', 'Q'), 'Utility::GetTime()': ('now', 'Q'),
+                   'GetSchedulingOffset()': Zb('offset'), 'GetLastCheck()': ('now', 'Q')}),
+        # CheckerComponent::CheckThreadProc: is the due checkable checked ("check"), and is a next-check update announced when it is not?
+        dict(name='checkthread_wants_check', func='CheckerComponent::CheckThreadProc', file='lib/checker/checkercomponent.cpp', props=['C04'],
+             region=(r'bool\s+check\s*=\s*true\s*;', r'if\s*\(\s*!check\s*\)'), outputs=['check', 'notifyNextCheck'],
+             inputs=[('forced', 'bool'), ('reachable', 'bool'), ('has_host', 'bool'), ('is_svc', 'bool'), ('active_checks', 'bool'), ('host_checks', 'bool'),
+                     ('service_checks', 'bool'), ('has_period', 'bool'), ('period_inside', 'bool')], ret='void', rcoq='bool * bool', dummy='(false, false)',
+             locals={'forced': Bb('forced')}, aliases={'checkable': 'CK', 'icingaApp': 'APP'},
+             stmts={'tie(host,service)=GetHostService(CK)': {'host': 'HOST', 'service': 'SVC'}},
+             bind={'CK->IsReachable(DependencyCheckExecution)': Bb('reachable'), 'HOST': ('has_host', 'ptr'), 'SVC': ('is_svc', 'ptr'),
+                   'CK->GetEnableActiveChecks()': Bb('active_checks'), 'APP->GetEnableHostChecks()': Bb('host_checks'),
+                   'APP->GetEnableServiceChecks()': Bb('service_checks'), 'CK->GetCheckPeriod()': ('has_period', 'ptr'),
+                   'CK->GetCheckPeriod()->IsInside(Utility::GetTime())': Bb('period_inside')}),
+    ]),
     # ---------------------------------------------------------------------------------------- C18 (tracked, outside the subset today)
     dict(area='perm', requires=['Icv.Src.XlPrelude'], items=[
         # builds Expression objects with `new`, writes through an out-parameter: not translatable; listed so that the evidence
@@ -227,7 +681,8 @@ AREAS = [
 ENUM_SOURCES = [('lib/icinga/checkresult.ti', ['HostState', 'ServiceState', 'StateType'], 'f_'),
                 ('lib/icinga/notification.hpp', ['NotificationFilter', 'NotificationType'], 'f_'),
                 ('lib/icinga/checkable.ti', ['AcknowledgementType'], 'f_'),
-                ('lib/icinga/checkable.hpp', ['DependencyType'], 'fx_')]     # f_: defined in Facts_enums; fx_: defined in Facts_fn_enums
+                ('lib/icinga/checkable.hpp', ['DependencyType'], 'fx_'),
+                ('lib/icinga/downtime.hpp', ['DowntimeRemovalReason'], 'fx_')]     # f_: defined in Facts_enums; fx_: defined in Facts_fn_enums
 
 
 def run(rd, emit, log, enum_values, ti_default):
@@ -243,12 +698,15 @@ def run(rd, emit, log, enum_values, ti_default):
     emit('Facts_fn_enums.v', '(* enum constants used by the translated functions that Facts_enums.v does not define *)\n' + extra)
 
     report, recognised = [], {}
+    glue_defs = {}          # name defined by a glue text -> glue id (a translation that uses it depends on that glue)
     for area in AREAS:
         body = ''.join('Require Import %s.\n' % r for r in area['requires'] + ['Icv.Facts.Facts_fn_enums']) + 'From Coq Require Import Bool.\nLocal Open Scope bool_scope.\nLocal Open Scope Z_scope.\n\n'
         for t in area['items']:
             if 'glue' in t:
                 ok = all(recognised.get(d, False) for d in t['deps'])
                 recognised[t['glue']] = ok
+                for nm in re.findall(r'^(?:Definition|Fixpoint|Inductive)\s+(\w+)', t['text'], re.M):
+                    glue_defs[nm] = t['glue']
                 body += '(* glue (hand-written in tools/facts_fn.py): %s *)\nDefinition src_%s_recognised : bool := %s.\n%s\n' % (
                     t['doc'], t['glue'], 'true' if ok else 'false', t['text'])
                 report.append(dict(name=t['glue'], kind='glue', recognised=ok, props=t['props']))
@@ -261,6 +719,10 @@ def run(rd, emit, log, enum_values, ti_default):
             for d in sorted(set(re.findall(r'\bsrc_(\w+)', res.get('term', '')))):
                 if d != t['name'] and not recognised.get(d, False) and res['ok']:
                     res['ok'] = False; res['reason'] = 'calls src_%s, which is not recognised' % d
+            for nm in sorted(set(re.findall(r'\b[A-Za-z_]\w*\b', res.get('term', '')))):
+                g = glue_defs.get(nm)
+                if g and not recognised.get(g, False) and res['ok']:
+                    res['ok'] = False; res['reason'] = 'uses %s (glue %s), which depends on an unrecognised function' % (nm, g)
             recognised[t['name']] = res['ok']
             if not res['ok']:
                 log.append('xlate: %s not recognised: %s' % (t['func'], res['reason']))
@@ -273,7 +735,7 @@ def run(rd, emit, log, enum_values, ti_default):
     coqdir = os.path.join(os.path.dirname(HERE), 'coq')
     thms = {}
     for fn in sorted(os.listdir(coqdir)):
-        m = re.match(r'Properties_(C\d+)_src\.v$', fn)
+        m = re.match(r'Properties_(C\d+)_(?:src|xlate)\.v$', fn)
         if not m: continue
         txt = open(os.path.join(coqdir, fn)).read()
         for tm in re.finditer(r'^Theorem\s+(\w+)\s*:(.*?)^Proof\.', txt, re.S | re.M):
